@@ -361,11 +361,11 @@ def rule_seven_bit(ctx, rep):
     adv = facts.body("anstyle_parse", "anstyle_parse::Parser::<C>::advance")
     from rules import C02
     try:
-        cases = C02.advance_cases(facts)
-        ok = all(any(c_[0] == "process_utf8" for c_ in cases[st][0]) == (st == "Utf8") for st in vt500.STATES)
+        cases = C02.advance_by_value(facts)
+        ok = bool(cases) and all(any(c_[0] == "process_utf8" for c_ in calls) == (st == "Utf8") for (st, _byte), (calls, _stores) in cases.items())
     except Unrecognised:
         ok = False
-    rep.check(ok, "seven-bit", adv["path"], "process_utf8-only-in-state-Utf8", "advance() evaluated once per state: process_utf8 is called in state Utf8 and in no other", loc(adv))
+    rep.check(ok, "seven-bit", adv["path"], "process_utf8-only-in-state-Utf8", "advance() evaluated on every (state, byte): process_utf8 is called in state Utf8 and in no other", loc(adv))
     pa = facts.body("anstyle_parse", "anstyle_parse::Parser::<C>::perform_action")
     sites = hir.visit_with_conds(pa["hir"], lambda x: hir.is_call(x, "anstyle_parse::Parser::<C>::process_utf8"))
     ok = len(sites) == 1 and any(f.get("kind") == "arm" and hir.pat_path(f["pat"]) == cp.ACTION + "::BeginUtf8" for f in sites[0][1])
